@@ -32,3 +32,33 @@ func FullFragment() *Fragment {
 		Not: true, Paren: true, MaxList: 8, MaxHash: 8, MaxArgs: 8, MinArgs: 0, ExpRef: true,
 	}
 }
+
+// T builds a token from its spelling (single token).
+func Tk(text string) model.Tok {
+	toks, err := model.Lex(text)
+	if err != nil || len(toks) != 1 {
+		panic("not a single token: " + text)
+	}
+	return toks[0]
+}
+
+// Tks builds several tokens.
+func Tks(texts ...string) []model.Tok {
+	out := make([]model.Tok, len(texts))
+	for i, t := range texts {
+		out[i] = Tk(t)
+	}
+	return out
+}
+
+// CoreFragment is X_core (C01): fields, @, literals of all six JSON types, raw
+// strings, sub-expressions, indices, parentheses, pipes, multi-select lists and hashes.
+func CoreFragment() *Fragment {
+	return &Fragment{
+		Idents: Tks("a", "b", `""`),
+		Leaves: Tks("@", "`null`", "`false`", "`1`", "`\"a\"`", "`[1,[2]]`", "`{\"a\":{\"b\":2}}`", "'a'"),
+		Nums:   Tks("0", "1", "2", "-1", "-2", "-3"),
+		Dot:    true, Pipe: true, Paren: true, MaxList: 2, MaxHash: 2,
+		Weight: StructuralWeight,
+	}
+}
